@@ -6,6 +6,9 @@ package grpc
 // violation (C13); flags and codes are compared with the kernel outcome (C15).
 
 import (
+	"encoding/json"
+
+	"github.com/resonatehq/resonate/pkg/receiver"
 	"github.com/resonatehq/resonate/pkg/promise"
 	"github.com/resonatehq/resonate/pkg/idempotency"
 	"context"
@@ -112,6 +115,37 @@ func vhRecv() *pb.Recv {
 	return &pb.Recv{Recv: &pb.Recv_Physical{Physical: &pb.PhysicalRecv{Type: vx.String("recv.type"), Data: vx.Bytes("recv.data")}}}
 }
 
+// vhRecvStored: the receiver description reaches the kernel exactly as supplied - a logical name as the JSON
+// string of that name (what the HTTP front end stores for "recv": "<name>" and the sender decodes), a physical
+// one as the JSON object of its type and data - and one that cannot be stored (data that is not a JSON text)
+// is refused by the front end instead of reaching the kernel as something else.
+func vhRecvStored(in *pb.Recv, calls int, got []byte) {
+	if in == nil {
+		vx.Assert(calls == 0, "C13:missing-receiver-refused")
+		return
+	}
+	switch r := in.Recv.(type) {
+	case *pb.Recv_Logical:
+		name := r.Logical
+		want, _ := json.Marshal(&name)
+		vx.Assert(vx.Implies(calls == 1, vx.BytesEq(got, want)), "C20:logical-receiver-stored-as-the-json-string-of-the-name")
+	case *pb.Recv_Physical:
+		if r.Physical == nil {
+			vx.Assert(calls == 0, "C13:missing-receiver-refused")
+			return
+		}
+		want, werr := json.Marshal(&receiver.Recv{Type: r.Physical.Type, Data: r.Physical.Data})
+		if werr != nil {
+			vx.Reach("unstorable-receiver")
+			vx.Assert(calls == 0, "C13:unstorable-receiver-refused")
+			return
+		}
+		vx.Assert(vx.Implies(calls == 1, vx.BytesEq(got, want)), "C20:physical-receiver-stored-as-supplied")
+	default:
+		vx.Assert(calls == 0, "C13:missing-receiver-refused")
+	}
+}
+
 var vhCtx = context.Background()
 
 // ---------------------------------------------------------------- promises
@@ -177,6 +211,8 @@ func VH_G_CreatePromiseAndTask() {
 		p := r.Promise
 		vx.Assert(vx.And(q.Promise.Id == p.Id, q.Promise.Timeout == p.Timeout, q.Promise.Strict == p.Strict, vx.MapEq(q.Promise.Tags, p.Tags), vhKeyIs(q.Promise.IdempotencyKey, p.IdempotencyKey), vhValueIs(q.Promise.Param, p.Param)), "C20:request-fields-copied")
 		vx.Assert(vx.And(q.Task.PromiseId == p.Id, q.Task.ProcessId == r.Task.ProcessId, int64(q.Task.Ttl) == int64(r.Task.Ttl), q.Task.Timeout == p.Timeout), "C20:task-fields-copied")
+		vx.Accepts(r.Task.Ttl == 0, "C15:accepts-create-with-task-ttl-zero")
+		vx.Accepts(r.Task.Ttl == 1<<30 && p.Timeout == 0, "C15:accepts-create-with-task-large-ttl")
 	}
 	if vhReply(k, out != nil, err) {
 		vx.Assert(out.Noop == (k.res.CreatePromiseAndTask.Status == t_api.StatusOK), "C15:noop-flag")
@@ -226,7 +262,24 @@ func VH_G_SearchPromises() {
 	s, k := vhServer()
 	out, err := s.SearchPromises(vhCtx, &pb.SearchPromisesRequest{Id: vx.String("id"), State: pb.SearchState(vx.Int32("state")), Tags: vx.Tags("tags", 0),
 		Limit: vx.Int32("limit"), Cursor: vx.String("cursor"), RequestId: vx.String("requestId")})
-	vhReply(k, out != nil, err)
+	if vhReply(k, out != nil, err) {
+		// C14 (front-end half): the page and the presence of a cursor are the kernel's
+		want := k.res.SearchPromises
+		same := len(out.Promises) == len(want.Promises)
+		if same {
+			for i := range out.Promises {
+				if out.Promises[i] == nil || out.Promises[i].Id != want.Promises[i].Id {
+					same = false
+				}
+			}
+		}
+		vx.Assert(same, "C14:reply-carries-the-kernels-page")
+		vx.Assert(vx.Implies(want.Cursor == nil, out.Cursor == ""), "C14:no-cursor-invented")
+		if want.Cursor != nil {
+			vx.Reach("cursor-in-reply")
+			vx.Assert(out.Cursor != "", "C14:reply-carries-the-kernels-cursor")
+		}
+	}
 }
 
 // ---------------------------------------------------------------- callbacks / subscriptions
@@ -236,9 +289,19 @@ func VH_G_CreateCallback() {
 	r := &pb.CreateCallbackRequest{Id: vx.String("id"), PromiseId: vx.String("promiseId"), RootPromiseId: vx.String("rootPromiseId"),
 		Timeout: vx.Int64("timeout"), Recv: vhRecv(), RequestId: vx.String("requestId")}
 	out, err := s.CreateCallback(vhCtx, r)
+	var got []byte
+	if k.calls == 1 {
+		got = k.req.CreateCallback.Recv
+	}
+	vhRecvStored(r.Recv, k.calls, got)
 	if k.calls == 1 {
 		q := k.req.CreateCallback
 		vx.Assert(vx.And(q.PromiseId == r.PromiseId, q.RootPromiseId == r.RootPromiseId, q.Timeout == r.Timeout), "C20:request-fields-copied")
+		_, isLogical := r.Recv.Recv.(*pb.Recv_Logical)
+		_, isPhysical := r.Recv.Recv.(*pb.Recv_Physical)
+		vx.Accepts(isLogical, "C15:accepts-logical-receiver")
+		vx.Accepts(isPhysical, "C15:accepts-physical-receiver")
+		vx.Accepts(r.Timeout == 0, "C15:accepts-callback-timeout-zero")
 	}
 	if vhReply(k, out != nil, err) {
 		vx.Assert(out.Noop == (k.res.CreateCallback.Status == t_api.StatusOK), "C15:noop-flag")
@@ -250,6 +313,11 @@ func VH_G_CreateSubscription() {
 	r := &pb.CreateSubscriptionRequest{Id: vx.String("id"), PromiseId: vx.String("promiseId"),
 		Timeout: vx.Int64("timeout"), Recv: vhRecv(), RequestId: vx.String("requestId")}
 	out, err := s.CreateSubscription(vhCtx, r)
+	var got []byte
+	if k.calls == 1 {
+		got = k.req.CreateSubscription.Recv
+	}
+	vhRecvStored(r.Recv, k.calls, got)
 	if k.calls == 1 {
 		q := k.req.CreateSubscription
 		vx.Assert(vx.And(q.Id == r.Id, q.PromiseId == r.PromiseId, q.Timeout == r.Timeout), "C20:request-fields-copied")
@@ -268,6 +336,8 @@ func VH_G_ClaimTask() {
 	if k.calls == 1 {
 		q := k.req.ClaimTask
 		vx.Assert(vx.And(q.Id == r.Id, int64(q.Counter) == int64(r.Counter), q.ProcessId == r.ProcessId, int64(q.Ttl) == int64(r.Ttl)), "C20:request-fields-copied")
+		vx.Accepts(r.Ttl == 0, "C15:accepts-claim-ttl-zero")
+		vx.Accepts(r.Ttl == 1<<30 && r.Counter == 1, "C15:accepts-claim-first-counter")
 	}
 	if vhReply(k, out != nil, err) {
 		vx.Assert(out.Claimed == (k.res.ClaimTask.Status == t_api.StatusCreated), "C15:claimed-flag")
@@ -316,6 +386,8 @@ func VH_G_AcquireLock() {
 	if k.calls == 1 {
 		q := k.req.AcquireLock
 		vx.Assert(vx.And(q.ResourceId == r.ResourceId, q.ExecutionId == r.ExecutionId, q.ProcessId == r.ProcessId, q.Ttl == r.Ttl), "C20:request-fields-copied")
+		vx.Accepts(r.Ttl == 0, "C15:accepts-lock-ttl-zero")
+		vx.Accepts(r.Ttl == 1<<40, "C15:accepts-lock-ttl-large")
 	}
 	if vhReply(k, out != nil, err) {
 		vx.Assert(out.Acquired == (k.res.AcquireLock.Status == t_api.StatusCreated), "C15:acquired-flag")
@@ -361,7 +433,24 @@ func VH_G_ReadSchedule() {
 func VH_G_SearchSchedules() {
 	s, k := vhServer()
 	out, err := s.SearchSchedules(vhCtx, &pb.SearchSchedulesRequest{Id: vx.String("id"), Tags: vx.Tags("tags", 0), Limit: vx.Int32("limit"), Cursor: vx.String("cursor"), RequestId: vx.String("requestId")})
-	vhReply(k, out != nil, err)
+	if vhReply(k, out != nil, err) {
+		// C14 (front-end half): the page and the presence of a cursor are the kernel's
+		want := k.res.SearchSchedules
+		same := len(out.Schedules) == len(want.Schedules)
+		if same {
+			for i := range out.Schedules {
+				if out.Schedules[i] == nil || out.Schedules[i].Id != want.Schedules[i].Id {
+					same = false
+				}
+			}
+		}
+		vx.Assert(same, "C14:reply-carries-the-kernels-page")
+		vx.Assert(vx.Implies(want.Cursor == nil, out.Cursor == ""), "C14:no-cursor-invented")
+		if want.Cursor != nil {
+			vx.Reach("cursor-in-reply")
+			vx.Assert(out.Cursor != "", "C14:reply-carries-the-kernels-cursor")
+		}
+	}
 }
 
 func VH_G_CreateSchedule() {
